@@ -425,6 +425,18 @@ def main(argv=None):
                            log=cross["log"]), open(path, "w"), indent=1)
             violations.append((path, " no-failing-input-found"))
 
+    # property-specific extra comparison (C04: the translated code evaluated in binary64 against physt, bit for bit)
+    extra = dict(name="none", ok=True, cases=0)
+    if hasattr(mod, "extra_check") and not a.no_gate:
+        try: extra = mod.extra_check(a.tier, seed)
+        except Exception as e: extra = dict(name="extra_check", ok=False, cases=0, failing=[], what="extra check crashed: %r" % (e,))
+        if not extra["ok"]:
+            os.makedirs(os.path.join(ROOT, "replays"), exist_ok=True)
+            path = os.path.join(ROOT, "replays", "%s-%s.json" % (a.prop, extra["name"]))
+            json.dump(dict(property=a.prop, kind="corr", theorem_or_corr=extra.get("what", extra["name"]), failing=extra.get("failing", [])),
+                      open(path, "w"), indent=1, default=str)
+            violations.append((path, " no-failing-input-found"))
+
     for fid, cnt in sorted(known_hit.items()):
         out_lines.append("KNOWN-FINDING: property=%s %s: %s (%d cases)" % (a.prop, fid, findings[fid]["what"], cnt))
     for path, suf in violations:
@@ -449,6 +461,8 @@ def main(argv=None):
                             input_distribution=dict(buckets=stats["buckets"], observation_kinds=stats["obs_kinds"]),
                             known_findings_hit=known_hit, forbidden_tokens=gate["forbidden"],
                             extraction_cross_check=dict(cases_evaluated_in_coq=cross["cases"], agree=cross["agree"], note=(cross["log"][-200:] if not cross["agree"] else ("vm_compute of Dispatch.run on these cases equals the extracted driver's output" if cross["cases"] else "runs in the thorough tier (and with --cross) only"))),
+                            extra_comparison=dict(name=extra["name"], cases=extra["cases"], agree=extra["ok"]),
+                            tie_by_translation=gate.get("tie"),
                             modelled_not_verified=getattr(mod, "MODELLED", "")),
               assumptions=tb, wall_s=round(time.time() - t0, 1), violations=len(violations))
     if not a.no_gate and not a.n:      # development runs (--no-gate / --n) never overwrite the evidence of a full run
